@@ -53,8 +53,9 @@ class IterDom:
 
 class LoopSpec:
     def __init__(self, inv=None, mode='inv', extra_mods=(), unroll=False,
-                 exit_assume=None, prepare=None):
+                 exit_assume=None, prepare=None, step=None):
         self.prepare = prepare    # callable(ex, st): abstract lists before loop
+        self.step = step          # callable(Vstart, Vend) -> [(name, formula)]
         self.inv = inv            # callable(V) -> list[(name, z3 bool)]
         self.mode = mode          # 'inv' | 'havoc'
         self.extra_mods = tuple(extra_mods)
@@ -110,6 +111,8 @@ class Executor:
         self.decide_cache = {}
         self.inline_depth = 0
         self.stats = dict(paths=0, splits=0, stmts=0)
+        self.branch_cov = set()    # (qualname, lineno, taken) seen so far
+        self.branch_all = set()    # all (qualname, lineno, taken) in bodies
 
     # ------------------------------------------------------------------
     # utilities
@@ -165,6 +168,11 @@ class Executor:
         self.cur_fn = fsrc
         self.loop_specs = loop_specs or {}
         self.loop_ord = {id(n): k for k, n in enumerate(loops_of(fsrc.node))}
+        for n in ast.walk(fsrc.node):
+            if isinstance(n, ast.If):
+                key = ast.unparse(n.test)[:80]
+                self.branch_all.add((fsrc.qualname, key, True))
+                self.branch_all.add((fsrc.qualname, key, False))
         try:
             body = fsrc.node.body
             if (body and isinstance(body[0], ast.Expr) and
@@ -302,7 +310,11 @@ class Executor:
     def st_If(self, node, st):
         c = self.eval(node.test, st)
         c = self.truth(st, c)
-        if self.decide(st, c):
+        taken = self.decide(st, c)
+        if self.cur_fn is not None:
+            self.branch_cov.add((self.cur_fn.qualname,
+                                 ast.unparse(node.test)[:80], taken))
+        if taken:
             return self.exec_block(node.body, [st])
         return self.exec_block(node.orelse, [st])
 
@@ -662,8 +674,19 @@ class Executor:
         results = []
         for bs in body_states:
             if self.feasible(bs):
-                results.extend(self.exec_block(node.body, [bs]))
+                start = bs.copy()
+                start.env = dict(bs.env)
+                for r in self.exec_block(node.body, [bs]):
+                    r.ghost = dict(r.ghost)
+                    r.ghost['__iter_start'] = start
+                    results.append(r)
         for r in results:
+            start = r.ghost.pop('__iter_start', None)
+            if spec.step is not None and start is not None and \
+                    r.status in ('normal', 'continue', 'break'):
+                self.cx.line = node.lineno
+                for (nm, f) in spec.step(View(self, start), View(self, r)):
+                    cx.oblige(r, pre + 'step/' + nm, f, kind='loop_step')
             if r.status in ('normal', 'continue'):
                 r.status = 'normal'
                 r.env[kname] = Sym(kk + 1, 'int')
@@ -838,7 +861,7 @@ class Executor:
     def ev_BoolOp(self, node, st):
         is_and = isinstance(node.op, ast.And)
         acc = None   # z3 bool accumulated so far (all symbolic operands)
-        pushed = 0
+        pushed = []
         try:
             for i, e in enumerate(node.values):
                 v = self.eval(e, st)
@@ -859,12 +882,21 @@ class Executor:
                 acc = tb if acc is None else (
                     z3.And(acc, tb) if is_and else z3.Or(acc, tb))
                 # evaluate the rest under the short-circuit assumption
-                st.pc.append(tb if is_and else z3.Not(tb))
-                pushed += 1
+                tmp = tb if is_and else z3.Not(tb)
+                st.pc.append(tmp)
+                pushed.append(tmp)
             return Sym(acc, 'bool')
         finally:
-            for _ in range(pushed):
-                st.pc.pop()
+            # remove exactly the temporary assumptions (axioms of fresh symbols
+            # introduced while evaluating later operands stay)
+            for tmp in pushed:
+                self._drop(st, tmp)
+
+    def _drop(self, st, tmp):
+        for i in range(len(st.pc) - 1, -1, -1):
+            if st.pc[i] is tmp:
+                del st.pc[i]
+                return
 
     def ev_Compare(self, node, st):
         from . import npmodel
@@ -885,16 +917,17 @@ class Executor:
         cb = concrete_bool(c)
         if cb is None:
             # scalar select if both sides are pure scalars
+            t1, t2 = B(c), z3.Not(B(c))
             try:
-                st.pc.append(B(c))
+                st.pc.append(t1)
                 a = self.eval(node.body, st)
-                st.pc.pop()
-                st.pc.append(z3.Not(B(c)))
+            finally:
+                self._drop(st, t1)
+            try:
+                st.pc.append(t2)
                 b = self.eval(node.orelse, st)
-                st.pc.pop()
-            except Exception:
-                st.pc.pop()
-                raise
+            finally:
+                self._drop(st, t2)
             if isinstance(a, (Sym, int, float, bool)) and isinstance(
                     b, (Sym, int, float, bool)):
                 ka, kb = kind_of(a), kind_of(b)
